@@ -1104,7 +1104,7 @@ theorem annex_eq (w : List Bytes) (wlast : Bytes) : hasAnnexM w wlast = hasAnnex
 /-- the commitment phase of a tapscript session: `Iterate()` is called until it stops answering `processing` -/
 theorem commit_phase (cx : Ctx) (tc : TapCtx) : ∀ (k : Nat) (e : IEnv) (t : Tce), e.tce = some t → e.done = false →
     match Tce.run tc k t with
-    | (.failed, _) => Ends cx tc e k (.error (.script .UNKNOWN_ERROR))
+    | (.failed, _) => Ends cx tc e k (.error (.script .WITNESS_PROGRAM_MISMATCH))
     | (.done, _) => ∃ e', (∀ N r, Ends cx tc e' N r → Ends cx tc e (N + k) r) ∧ e'.tce = none ∧ e'.done = false ∧
         e'.pc = e.pc ∧ e'.isP2sh = e.isP2sh ∧ e'.successor = e.successor ∧
         e'.see = { e.see with execdata := { e.see.execdata with tapleafHash := t.leaf, tapleafHashInit := true } }
@@ -1123,7 +1123,7 @@ theorem commit_phase (cx : Ctx) (tc : TapCtx) : ∀ (k : Nat) (e : IEnv) (t : Tc
       cases state with
       | failed =>
         simp only
-        have hs : stepSession cx tc e = .error (.script .UNKNOWN_ERROR) := by
+        have hs : stepSession cx tc e = .error (.script .WITNESS_PROGRAM_MISMATCH) := by
           unfold stepSession; rw [ht]; simp only [hit]
         exact ends_weaken (ends_step_err cx tc e _ hd hs) (by omega)
       | done =>
